@@ -4,6 +4,7 @@ import (
 	"errors"
 	"fmt"
 	"math"
+	"regexp"
 	"time"
 
 	"github.com/yaricom/goNEAT/v4/experiment"
@@ -36,11 +37,13 @@ func init() {
 	})
 }
 
+var negZero = regexp.MustCompile(`\b8000000000000000\b`)
+
 // extreme but finite float64 values that a weight or a trait parameter may legally hold
 var extremeFloats = []float64{
 	math.SmallestNonzeroFloat64, -math.SmallestNonzeroFloat64, 2.2250738585072014e-308, 1e-310, math.MaxFloat64, -math.MaxFloat64, 1e300, -1e300,
 	0.1 + 0.2, 1.0 / 3.0, -2.0 / 3.0, 1e21, 1e-7, 123456789.12345678, 9007199254740993, 0.30000000000000004, 5e-324, 1.7976931348623157e308,
-	math.Pi, -math.E, 1e15 + 0.3, 4.35, 0.000001, 100000, 1e6, 1e20, 1e22,
+	math.Pi, -math.E, 1e15 + 0.3, 4.35, 0.000001, 100000, 1e6, 1e20, 1e22, math.Copysign(0, -1), 0, 1, -1, 2, 1e3,
 }
 
 // io kinds
@@ -206,7 +209,8 @@ func genomeDiff(want *GenomeRec, got *genetics.Genome, withId bool) string {
 	if got == nil {
 		return "no genome returned"
 	}
-	a, b := want.Dump(withId), Canon(got).Dump(withId)
+	// negative and positive zero are the same weight (YAML writes -0 and reads an integer 0 back): not distinguished
+	a, b := negZero.ReplaceAllString(want.Dump(withId), "0"), negZero.ReplaceAllString(Canon(got).Dump(withId), "0")
 	if a == b {
 		return ""
 	}
